@@ -420,26 +420,70 @@ let rb_case toks =
   let s = Buffer.contents b in s ^ " # " ^ s
 
 (* ------------------------------------------------------------------ C13: random byte stream *)
+(* independent, fast spec side: Salsa20/20 on native 32-bit arithmetic (cross-validated against the extracted Gallina
+   Salsa20 on every request that is small enough for both) *)
+let salsa_block (key : int array) (nonce : int array) (ctr : int) : Bytes.t =
+  let m32 = 0xFFFFFFFF in
+  let le a o = a.(o) lor (a.(o + 1) lsl 8) lor (a.(o + 2) lsl 16) lor (a.(o + 3) lsl 24) in
+  let sigma = [| 0x61707865; 0x3320646e; 0x79622d32; 0x6b206574 |] in
+  let inp = [| sigma.(0); le key 0; le key 4; le key 8; le key 12; sigma.(1); le nonce 0; le nonce 4; ctr land m32; (ctr lsr 32) land m32;
+               sigma.(2); le key 16; le key 20; le key 24; le key 28; sigma.(3) |] in
+  let x = Array.copy inp in
+  let rotl v c = ((v lsl c) land m32) lor (v lsr (32 - c)) in
+  let qr a b c d =
+    x.(b) <- x.(b) lxor rotl ((x.(a) + x.(d)) land m32) 7;
+    x.(c) <- x.(c) lxor rotl ((x.(b) + x.(a)) land m32) 9;
+    x.(d) <- x.(d) lxor rotl ((x.(c) + x.(b)) land m32) 13;
+    x.(a) <- x.(a) lxor rotl ((x.(d) + x.(c)) land m32) 18 in
+  for _ = 1 to 10 do
+    qr 0 4 8 12; qr 5 9 13 1; qr 10 14 2 6; qr 15 3 7 11;
+    qr 0 1 2 3; qr 5 6 7 4; qr 10 11 8 9; qr 15 12 13 14
+  done;
+  let out = Bytes.create 64 in
+  for i = 0 to 15 do
+    let v = (x.(i) + inp.(i)) land m32 in
+    for j = 0 to 3 do Bytes.set out (4 * i + j) (Char.chr ((v lsr (8 * j)) land 255)) done
+  done; out
+let salsa_stream key nonce len =
+  let b = Buffer.create (len + 64) in
+  let nb = (len + 63) / 64 in
+  for c = 0 to nb - 1 do Buffer.add_bytes b (salsa_block key nonce c) done;
+  Buffer.sub b 0 len
+
+let render_bytes (b : Buffer.t) (s : string) =
+  let len = String.length s in
+  if len = 0 then Buffer.add_string b "-"
+  else if len <= 96 then String.iter (fun ch -> Buffer.add_string b (Printf.sprintf "%02x" (Char.code ch))) s
+  else begin
+    let h = ref (Z.of_string "1469598103934665603") and m64 = Z.pred (Z.shift_left Z.one 64) in
+    String.iter (fun ch -> h := Z.logand (Z.mul (Z.logxor !h (Z.of_int (Char.code ch))) (Z.of_string "1099511628211")) m64) s;
+    Buffer.add_string b ("h" ^ Z.to_string !h)
+  end;
+  Buffer.add_string b " "
+
 let prng_case toks =
   match toks with
   | ks :: lens ->
       let ks = int_of_string ks in
-      let oskey = List.init 32 (fun i -> czi ((ks + 7 * i + 1) land 255)) in
-      let (s', outs) = M.run_hist oskey M.g0 (List.map (fun l -> nat_of_int (int_of_string l)) lens) in
-      let b = Buffer.create 256 in
-      List.iter (fun o ->
-          let bytes = List.map (fun z -> Z.to_int (zz_of_cz z)) o in
-          let len = List.length bytes in
-          if len = 0 then Buffer.add_string b "-"
-          else if len <= 96 then List.iter (fun x -> Buffer.add_string b (Printf.sprintf "%02x" x)) bytes
-          else begin
-            let h = ref (Z.of_string "1469598103934665603") and m64 = Z.pred (Z.shift_left Z.one 64) in
-            List.iter (fun x -> h := Z.logand (Z.mul (Z.logxor !h (Z.of_int x)) (Z.of_string "1099511628211")) m64) bytes;
-            Buffer.add_string b ("h" ^ Z.to_string !h)
-          end;
-          Buffer.add_string b " ") outs;
-      Buffer.add_string b (Printf.sprintf "| seedings=%d" (int_of_nat (M.g_seedings s')));
-      let s = Buffer.contents b in s ^ " # " ^ s
+      let keyi = Array.init 32 (fun i -> (ks + 7 * i + 1) land 255) in
+      let lensi = List.map int_of_string lens in
+      (* spec: request i = first len_i bytes of the Salsa20/20 keystream under nonce LE64(i); one seeding *)
+      let sb = Buffer.create 256 in
+      List.iteri (fun i l -> let nonce = Array.init 8 (fun j -> (i lsr (8 * j)) land 255) in render_bytes sb (salsa_stream keyi nonce l)) lensi;
+      Buffer.add_string sb (Printf.sprintf "| seedings=%d" (if lensi = [] then 0 else 1));
+      (* model: the extracted generator state machine, for histories whose total size the bit-serial model can afford *)
+      let total = List.fold_left (+) 0 lensi + 64 * List.length lensi in
+      let ms =
+        if total > 300000 then "?"
+        else begin
+          let oskey = List.init 32 (fun i -> czi keyi.(i)) in
+          let (s', outs) = M.run_hist oskey M.g0 (List.map nat_of_int lensi) in
+          let b = Buffer.create 256 in
+          List.iter (fun o -> render_bytes b (String.init (List.length o) (fun i -> Char.chr (Z.to_int (zz_of_cz (List.nth o i)))))) outs;
+          Buffer.add_string b (Printf.sprintf "| seedings=%d" (int_of_nat (M.g_seedings s')));
+          Buffer.contents b
+        end in
+      ms ^ " # " ^ Buffer.contents sb
   | _ -> "badcase"
 
 (* ------------------------------------------------------------------ C18: interleavings of the repaired generator *)
